@@ -631,11 +631,30 @@ pub fn stress(a: &Args) {
         if fill_before_last_drop {
             set_gate(&sh, false);
             let (s0, h0) = (&live[0].0, live[0].1);
-            let lim = cap.map(|c| c + 3).unwrap_or(5);
+            let lim = cap.map(|c| c + 5).unwrap_or(5);
+            // C10 "returns promptly even while the wrapped sink is blocked indefinitely": the quickest refused and the quickest
+            // accepted emit of this phase (a minimum over several calls is insensitive to scheduling noise; an emit that waits
+            // for room or for the worker with a timeout makes EVERY refused call slow)
+            let (mut min_ref, mut n_ref, mut min_ok, mut n_ok) = (u64::MAX, 0u64, u64::MAX, 0u64);
             for i in 0..lim {
                 let m = format!("f{}", i);
-                do_emit(s0, h0, &m);
+                let t0 = Instant::now();
+                let r = do_emit(s0, h0, &m);
+                let us = t0.elapsed().as_micros() as u64;
+                match r {
+                    Some(false) => {
+                        min_ref = min_ref.min(us);
+                        n_ref += 1;
+                    }
+                    Some(true) => {
+                        min_ok = min_ok.min(us);
+                        n_ok += 1;
+                    }
+                    None => {}
+                }
             }
+            let c = |x: u64| x.min(2_000_000_000);
+            tr().ev(json!({"ev":"latency","nref":n_ref,"minref":c(min_ref),"nok":n_ok,"minok":c(min_ok)}));
         }
         // drop every remaining handle, in random order
         while !live.is_empty() {
